@@ -12,6 +12,7 @@ import (
 	"os"
 	"path/filepath"
 	"sort"
+	"strconv"
 	"strings"
 	"time"
 
@@ -136,6 +137,7 @@ type p2variant struct {
 	recvExp   map[int]uint32 // original exponent -> written exponent
 	recvLen   int            // -1 = unchanged
 	recvWrong bool
+	optional  int    // > 0: an optional packet of that shape (optionalPacket) follows the creator packet in every file
 	creator   string // "" = normal client id, "empty" = empty body, "padding" = NUL bytes only, "blank" = blanks and NULs
 }
 
@@ -152,6 +154,10 @@ func baseVariant(prot map[string][]byte) *p2variant {
 }
 
 func (v *p2variant) apply(m c19Mut) {
+	if strings.HasPrefix(m.Field, "opt.") {
+		v.optional, _ = strconv.Atoi(strings.TrimPrefix(m.Field, "opt."))
+		return
+	}
 	f0 := v.files[0]
 	nsl := uint64(len(f0.pairs))
 	switch m.Field {
@@ -338,6 +344,11 @@ func (v *p2variant) build(prot map[string][]byte) (map[string][]byte, [16]byte, 
 			}
 		}
 		rep("creator", creator)
+		if v.optional > 0 && len(files) > 0 {
+			if pk := optionalPacket(setID, files[0].id(), files[0].fdName, int(v.sliceSize), v.optional); pk != nil {
+				b.Write(pk)
+			}
+		}
 		rep("main", mainP)
 		for i := range fds {
 			if i == 0 {
